@@ -58,12 +58,15 @@ def run(ch: Checker) -> None:
     # ---------------- C10.1
     cl = prog.own_method('Threadless', '_cleanup')
     gcl = cfg_of(cl, prog)
-    n, cex = must_attempt(gcl, lambda a: isinstance(a, ast.Delete) and any(isinstance(t, ast.Subscript) and attr_chain(t.value) == 'self.works' for t in a.targets),
+    def _forgets(a: ast.AST) -> bool:
+        return (isinstance(a, ast.Delete) and any(isinstance(t, ast.Subscript) and attr_chain(t.value) == 'self.works' for t in a.targets)) or \
+            any(isinstance(c_, ast.Call) and attr_chain(c_.func) == 'self.works.pop' for c_ in walk_no_nested(a))
+    n, cex = must_attempt(gcl, _forgets,
                           lambda p: True, exc_source=lambda a: _has_call(a, ()) or any(isinstance(c, ast.Call) and (isinstance(c.func, ast.Attribute) and c.func.attr == 'shutdown') for c in walk_no_nested(a)))
     ch.check(cex is None and n > 0, 'C10.1', cl, 'del self.works[work_id]', 'the work is forgotten on all %d path(s), also when shutdown() raises' % n,
              'a path of _cleanup (%s) leaves the work in self.works: it is polled and cleaned again, and never released' % (cex[0] if cex else ''), witness=cex[1] if cex else None)
     n, cex = must_attempt(gcl, lambda a: _has_call(a, ('os.close',)),
-                          lambda p: allfacts(p).get('self.work_queue_fileno() is None') is False,
+                          lambda p: allfacts(p).get('self.work_queue_fileno() is None') is not True,      # also the ways out on which the question is never asked
                           exc_source=lambda a: any(isinstance(c, ast.Call) and (isinstance(c.func, ast.Attribute) and c.func.attr == 'shutdown') for c in walk_no_nested(a)))
     ch.check(cex is None and n > 0, 'C10.1', cl, 'os.close(work_id)', 'the received handle is closed on all %d path(s) with a work-queue fd' % n,
              'remote executor: the duplicated descriptor received for the work is not closed on a path of _cleanup (%s)' % (cex[0] if cex else 'no such path'), witness=cex[1] if cex else None)
@@ -76,11 +79,11 @@ def run(ch: Checker) -> None:
             if n_.kind == 'stmt':
                 if any(isinstance(c, ast.Call) and (isinstance(c.func, ast.Attribute) and c.func.attr == 'shutdown') for c in walk_no_nested(n_.ast)):  # type: ignore[arg-type]
                     ev.append('shutdown')
-                if isinstance(n_.ast, ast.Delete) and 'self.works[' in norm(n_.ast):
+                if _forgets(n_.ast):       # type: ignore[arg-type]
                     ev.append('forget')
-        if 'forget' in ev and ('shutdown' not in ev or ev.index('shutdown') > ev.index('forget')):
+        if 'forget' in ev and 'shutdown' not in ev and p.exit_kind == 'return':
             order_ok = False
-    ch.check(order_ok, 'C10.1', cl, 'shutdown before forget', 'shutdown() precedes `del self.works[id]`', 'a work is forgotten without (or before) its shutdown(): its sockets stay open')
+    ch.check(order_ok, 'C10.1', cl, 'shutdown before forget', 'every normal path that forgets the work also calls its shutdown()', 'a work is forgotten without its shutdown() having been called: its sockets stay open')
     run_ = prog.own_method('HttpProtocolHandler', 'run')
     gr = cfg_of(run_, prog)
     for tgt, nm in ((('self.shutdown',), 'shutdown()'), (('self.selector.close',), 'selector.close()')):
@@ -248,6 +251,7 @@ def run(ch: Checker) -> None:
 
     # ---------------- C10.8 (shared)
     ch.import_rules('C09', {'C09.6': 'C10.8'}, 'a strict decode of wire bytes that raises on the way to the close callbacks aborts teardown before the upstream socket is released')
+    ch.import_rules('C09', {'C09.5b': 'C10.14'}, 'resources a plugin releases in its close hook are released only if every plugin gets that hook, whatever an earlier plugin answered to the access-log hook')
 
     # ---------------- C10.11 close() overrides reach the real close
     tcn = prog.class_named('TcpConnection')
